@@ -460,7 +460,69 @@ def judge_fix(sin, tout, dout, out, otag, text):
     return 'yes', viols
 
 
+# ----- several input files in one invocation (differential: each file must come out as in a run of its own) ---------
+BATCH_DOCS = ['m1113', 'm1111', 'm2221', 'm1122:shapes', 'm1111+nogs', 's:simple1', 's:834_lui_id']
+
+
+def batch_check(names, eol, fix, dest):
+    c = corpus()
+    texts = [c[n] for n in names]
+    tmp = tempfile.mkdtemp(prefix='c20b_', dir='/dev/shm' if os.path.isdir('/dev/shm') else None)
+    try:
+        singles = []
+        for i, t in enumerate(texts):
+            try:
+                singles.append(norm_once(tmp, 100 + i, t, eol, fix, dest))
+            except Failed as e:
+                return None, 'single run fails (judged by the main family)'
+        paths = []
+        for i, t in enumerate(texts):
+            pth = os.path.join(tmp, 'b%d.x12' % i)
+            with open(pth, 'w', encoding='ascii', newline='') as f:
+                f.write(t)
+            paths.append(pth)
+        argv = (['-e'] if eol else []) + (['-f'] if fix else []) + (['-i'] if dest == 'inplace' else []) + paths
+        try:
+            so = call_main(argv)
+        except Failed as e:
+            return [('C20|batch|raises %s' % type(e.args[0]).__name__, 'x12norm %s on %s raised %r' % (' '.join(argv[:-len(paths)]), names, e.args[0]))], 'batch'
+        v = []
+        if dest == 'inplace':
+            for i, pth in enumerate(paths):
+                if slurp(pth) != singles[i]:
+                    v.append(('C20|batch|file %d of the batch differs from a run of its own' % (i + 1),
+                              'x12norm -i on %s: file %d is %s, alone it is %s' % (names, i + 1, show(slurp(pth)), show(singles[i]))))
+        else:
+            if so != ''.join(singles):
+                v.append(('C20|batch|stdout differs from the concatenation of single runs',
+                          'x12norm on %s: %s, single runs give %s' % (names, show(so), show(''.join(singles)))))
+        return v, 'batch'
+    finally:
+        shutil.rmtree(tmp, ignore_errors=True)
+
+
+def work_batch(shard):
+    pairs, = shard
+    P = core.Part()
+    for names in pairs:
+        for eol in (False, True):
+            for fix in (False, True):
+                for dest in ('stdout', 'inplace'):
+                    v, label = batch_check(names, eol, fix, dest)
+                    P.n += 1
+                    if v is None:
+                        P.counters['batch: ' + label] += 1
+                        continue
+                    P.out('batch|%s|%s|%s' % (eol, fix, dest))
+                    for k, m in v:
+                        P.bad(k, {'batch': list(names), 'eol': eol, 'fix': fix, 'dest': dest}, m)
+    return P
+
+
 def evaluate(case):
+    if 'batch' in case:
+        v, _ = batch_check(case['batch'], case['eol'], case['fix'], case['dest'])
+        return v or []
     text = build(case)
     if text is None:
         return []
@@ -555,6 +617,11 @@ def run(R):
     weight = {'pairs': 0, 'single+group': 1, 'none': 2}
     shards.sort(key=lambda s: (weight[s[4]], -len(corpus()[s[0]])))
     R.pmap(work, shards)
+    pairs = [(a, b) for a in BATCH_DOCS for b in BATCH_DOCS]
+    if R.thorough:
+        pairs += [(a, b, c3) for a in BATCH_DOCS[:4] for b in BATCH_DOCS[:4] for c3 in BATCH_DOCS[:4]]
+    R.pmap(work_batch, [(ch,) for ch in core.chunks(pairs, 32)])
+    R.cov['batch_invocations'] = len(pairs) * 8
     c = corpus()
     R.bounds = {'documents': '%d hand-built minimal interchanges (incl. 3 with a group-less TA1-only interchange) + %d suite sources, each as shipped and with reference-correct counts'
                              % (sum(1 for n in c if n.startswith('m')), sum(1 for n in c if n.startswith('s:'))),
